@@ -90,6 +90,10 @@ def run(rep, tier):
             continue
         bb = m.bbox
         w = np.asarray(m.data)
+        if not np.isfinite(w).all():
+            # non-finite aperture weights are a C01 matter (known finding F20: exact ellipse in degenerate contact with a pixel)
+            rep.count('skipped:non-finite-aperture-weight (C01)')
+            continue
         hd = f'{bb.ixmin} {bb.ixmax} {bb.iymin} {bb.iymax} {c["ny"]} {c["nx"]}'
         lines.append(f'apsum {hd} | ' + ' '.join(q(v) for v in w.ravel()) + ' | '
                      + gens.arr_tokens(c['data']) + ' | ' + gens.mask_tokens(c['mask']) + ' | '
